@@ -297,6 +297,54 @@ func C15(c *Ctx) {
 		r.Floor("R15.4", "direct concluding changes in entries", nf, 3)
 	}
 
+	// R15.7 electorate changes reach every live proposal
+	r.Rule("R15.7", "electorate changes reach every live proposal: in UpdateAvailableElectorateNum the store of the new AvailableElectorateNum is reachable with every non-final status (all ProposalStatus constants except APPROVED / REJECTED; enum refinement over the comparisons of p.Status on the way): a paused proposal that misses the update is decided against a stale electorate when it is restored.")
+	if up := c.fn("R15.7", govPrefix+"UpdateAvailableElectorateNum"); up != nil {
+		nUp := 0
+		isUpd := storesToField("Proposal", "AvailableElectorateNum")
+		type updAt struct {
+			in   ssa.Instruction
+			base ssa.Value
+		}
+		var ups []updAt
+		for _, in := range sites(up, isUpd) {
+			_, _, base, _ := core.FieldOf(in.(*ssa.Store).Addr)
+			ups = append(ups, updAt{in, base})
+		}
+		// or in a helper that receives the proposal
+		for _, call := range core.Calls(up) {
+			g := core.StaticCallee(call)
+			if g == nil || len(g.Blocks) == 0 || core.PkgOf(g) != core.PkgOf(up) {
+				continue
+			}
+			for _, in := range sites(g, isUpd) {
+				_, _, base, _ := core.FieldOf(in.(*ssa.Store).Addr)
+				for i, gp := range g.Params {
+					if core.Strip(base) == ssa.Value(gp) && i < len(call.Common().Args) {
+						ups = append(ups, updAt{call, call.Common().Args[i]})
+					}
+				}
+			}
+		}
+		for _, u := range ups {
+			in := u.in
+			nUp++
+			set := eg.stateAt(up, u.base, in)
+			var missing []string
+			for _, st := range universe {
+				if st == approved || st == rejected {
+					continue
+				}
+				if !set.Intersects(st) {
+					missing = append(missing, st)
+				}
+			}
+			r.Check(len(missing) == 0, "R15.7", "UpdateAvailableElectorateNum: update reaches every non-final status", c.P.Pos(in.Pos()), "p.Status ∈ "+set.String()+" at the store of AvailableElectorateNum",
+				"the store of the new electorate size is unreachable for proposals in status "+strings.Join(missing, ",")+" (p.Status ∈ "+set.String()+" here): such a proposal keeps the old AvailableElectorateNum and threshold and is later concluded - or never concluded - against an electorate that no longer exists")
+		}
+		r.Floor("R15.7", "AvailableElectorateNum stores in UpdateAvailableElectorateNum", nUp, 1)
+	}
+
 	// R15.6 electorate snapshot
 	r.Rule("R15.6", "electorate snapshot: the electorate recorded in a new proposal is the first result of getElectorate, and the list getElectorate returns is built only from elements appended behind an IsAvailable() test (admins unavailable at creation are not electors).")
 	if ge := c.fn("R15.6", govPrefix+"getElectorate"); ge != nil {
